@@ -1,3 +1,330 @@
 import B6.Driver.Common
-/-! Driver for C32 — stub (the check for this property is not built yet). -/
-def main : IO Unit := B6.Driver.run { σ := Unit, init := (), step := fun s _ _ => (s, .bad) }
+import B6.Model.GeoJSON
+/-!
+Driver for C32 (GeoJSON marshal / unmarshal structure and `FillFromGeoJSON`).  Coordinates are E7 integers.
+
+text forms (no spaces inside a form)
+  tree      := int | `[]` | `[` tree (`,` tree)* `]`
+  geometry  := `<Type>:<tree>` where a position is `[lat,lng]`  (model order), e.g. `LineString:[[515000000,-1250000],[1,2]]`
+  json      := `<Type>:<tree>` where a position is `[lng,lat]`  (JSON order; any nesting / arity for `parse`)
+  feature   := `<geometry>|k=v,k=v`  (`|-` when there are no properties)
+
+ops
+  `geom <geometry>`        answer `<json> <geometry|err> <geometry|err>`   json.Marshal(Geometry); the text back through
+                            json.Unmarshal(&Geometry) and through geojson.Unmarshal
+  `parse <json>`           answer `<geometry|err> <geometry|err>`          (same two decoders on harness-written JSON)
+  `coll <feature>…`        answer `coll <feature>…` | `err`                json.Marshal(FeatureCollection) → geojson.Unmarshal
+  `import <feature>…`      answer `filled=<n|panic> apply=<ok|err|-> world=<n>`   FillFromGeoJSON + Apply on an empty world
+  `feat <i>`               answer `none` | `<found>` (`+`-joined when several kinds share the index) with
+                            found := `<kind> <obs> [k=<tagval> …]`; obs := `P:[lat,lng]` | `L:<tree>` | `A:<tree of
+                            polygons→loops→[hole(0/1),[positions]]>` | `?`; tagval := `s:<str>` | `P:[lat,lng]` | `L:<tree>`
+                            (tags in stored order — the order of the properties among them is Go's map order)
+
+Predicates.  `geom`, `coll`: what comes back equals what went in (`roundtrip`).  `feat i` (only when every feature of
+the collection is well shaped): GeoJSON feature `i` is found once, under the expected kind, with the same geometry
+(loops compared as cycles in either direction, a polygon as a set of loops, ring 0 outer and the others holes) and
+every property readable by key (`import_one_per_feature`).  Failures in the two recorded classes carry
+`class=multi-geometry-dropped` (the feature is a MultiPoint / MultiLineString) or `class=reserved-property-key` (`reservedClash`
+is true of the feature, or of an earlier feature at which `Apply` stopped so that this one was never added).
+-/
+open B6.Driver B6.Model.GeoJSON
+namespace B6.Driver.C32
+
+/-! ## generic trees -/
+
+inductive T where
+  | atom (s : String)
+  | list (xs : List T)
+  deriving Inhabited
+
+partial def T.render : T → String
+  | .atom s => s
+  | .list xs => "[" ++ ",".intercalate (xs.map T.render) ++ "]"
+
+/-- recursive descent over the characters; returns the tree and the rest -/
+partial def parseT : List Char → Option (T × List Char)
+  | '[' :: ']' :: rest => some (.list [], rest)
+  | '[' :: rest =>
+    let rec items (cs : List Char) (acc : List T) : Option (List T × List Char) :=
+      match parseT cs with
+      | none => none
+      | some (t, ',' :: r) => items r (t :: acc)
+      | some (t, ']' :: r) => some ((t :: acc).reverse, r)
+      | some _ => none
+    (items rest []).map fun (xs, r) => (.list xs, r)
+  | cs =>
+    let a := cs.takeWhile fun c => c != ',' && c != ']' && c != '['
+    if a.isEmpty then none else some (.atom (String.ofList a), cs.drop a.length)
+
+def parseTree (s : String) : Option T :=
+  match parseT s.toList with
+  | some (t, []) => some t
+  | _ => none
+
+abbrev C := Coord Int
+
+def cT (c : C) : T := .list [.atom (toString c.lat), .atom (toString c.lng)]
+def lT {α : Type} (f : α → T) (xs : List α) : T := .list (xs.map f)
+
+def tC : T → Option C
+  | .list [.atom a, .atom b] => do some { lat := (← a.toInt?), lng := (← b.toInt?) }
+  | _ => none
+def tL {α : Type} (f : T → Option α) : T → Option (List α)
+  | .list xs => xs.mapM f
+  | .atom _ => none
+
+def geomTree : Geom Int → T
+  | .point c => cT c
+  | .multiPoint cs => lT cT cs
+  | .lineString cs => lT cT cs
+  | .multiLineString ls => lT (lT cT) ls
+  | .polygon rs => lT (lT cT) rs
+  | .multiPolygon ps => lT (lT (lT cT)) ps
+
+def renderGeom (g : Geom Int) : String := g.typeName ++ ":" ++ (geomTree g).render
+
+def parseGeom (s : String) : Option (Geom Int) :=
+  match s.splitOn ":" with
+  | [ty, body] => do
+    let t ← parseTree body
+    match ty with
+    | "Point" => (tC t).map .point
+    | "MultiPoint" => (tL tC t).map .multiPoint
+    | "LineString" => (tL tC t).map .lineString
+    | "MultiLineString" => (tL (tL tC) t).map .multiLineString
+    | "Polygon" => (tL (tL tC) t).map .polygon
+    | "MultiPolygon" => (tL (tL (tL tC)) t).map .multiPolygon
+    | _ => none
+  | _ => none
+
+partial def cjTree : CJ Int → T
+  | .num x => .atom (toString x)
+  | .arr xs => .list (xs.map cjTree)
+
+partial def treeCJ : T → Option (CJ Int)
+  | .atom a => a.toInt?.map .num
+  | .list xs => (xs.mapM treeCJ).map .arr
+
+def renderJ (j : GeomJ Int) : String := j.typ ++ ":" ++ (cjTree j.coords).render
+
+def parseJ (s : String) : Option (GeomJ Int) :=
+  match s.splitOn ":" with
+  | [ty, body] => do
+    let t ← parseTree body
+    let c ← treeCJ t
+    some { typ := ty, coords := c }
+  | _ => none
+
+def renderOpt (o : Option (Geom Int)) : String :=
+  match o with
+  | some g => renderGeom g
+  | none => "err"
+
+def parseProps (s : String) : Option (List (String × String)) :=
+  if s == "-" then some [] else
+  (s.splitOn ",").mapM fun kv => match kv.splitOn "=" with
+    | [k, v] => some (k, v)
+    | _ => none
+
+def renderProps (p : List (String × String)) : String :=
+  if p.isEmpty then "-" else ",".intercalate (p.map fun kv => kv.1 ++ "=" ++ kv.2)
+
+def parseFeature (s : String) : Option (Feature Int) :=
+  match s.splitOn "|" with
+  | [g, p] => do some { geom := (← parseGeom g), props := (← parseProps p) }
+  | _ => none
+
+def renderFeature (f : Feature Int) : String := renderGeom f.geom ++ "|" ++ renderProps f.props
+
+/-! ## canonical forms for comparing geometry that went through S2 -/
+
+def coordLt (a b : C) : Bool := a.lat < b.lat || (a.lat == b.lat && a.lng < b.lng)
+
+def listLt : List C → List C → Bool
+  | [], [] => false
+  | [], _ => true
+  | _, [] => false
+  | a :: as, b :: bs => coordLt a b || (a == b && listLt as bs)
+
+def rotations (l : List C) : List (List C) :=
+  (List.range l.length).map fun i => l.drop i ++ l.take i
+
+/-- smallest rotation of the cycle or of its reverse -/
+def canonLoop (l : List C) : List C :=
+  (rotations l ++ rotations l.reverse).foldl (fun best r => if listLt r best then r else best) l
+
+def loopKeyLt (a b : Bool × List C) : Bool :=
+  listLt a.2 b.2 || (a.2 == b.2 && !a.1 && b.1)
+
+/-- a polygon: loops with hole flags, as a sorted set of canonical cycles -/
+def canonPolygon (loops : List (Bool × List C)) : List (Bool × List C) :=
+  ((loops.map fun l => (l.1, canonLoop l.2)).toArray.qsort loopKeyLt).toList
+
+def renderFlagged (ps : List (List (Bool × List C))) : String :=
+  (lT (lT fun l : Bool × List C => T.list [.atom (if l.1 then "1" else "0"), lT cT l.2]) ps).render
+
+def parseFlagged (s : String) : Option (List (List (Bool × List C))) :=
+  (parseTree s).bind fun t =>
+    tL (tL fun
+      | T.list [.atom h, l] => (tL tC l).map fun cs => (h == "1", cs)
+      | _ => none) t
+
+/-- the model's polygons with the hole flags the property expects: ring 0 outer, the others holes -/
+def flagged (ps : List (List (List C))) : List (List (Bool × List C)) :=
+  ps.map fun loops => (List.range loops.length).zip loops |>.map fun (i, l) => (i != 0, l)
+
+inductive Obs where
+  | point (c : C)
+  | path (cs : List C)
+  | area (ps : List (List (Bool × List C)))
+  | invalid
+  deriving Inhabited
+
+def Obs.canon : Obs → Obs
+  | .area ps => .area (ps.map canonPolygon)
+  | o => o
+
+def Obs.render : Obs → String
+  | .point c => "P:" ++ (cT c).render
+  | .path cs => "L:" ++ (lT cT cs).render
+  | .area ps => "A:" ++ renderFlagged ps
+  | .invalid => "?"
+
+def parseObs (s : String) : Option Obs :=
+  if s == "?" then some .invalid
+  else if s.startsWith "P:" then ((parseTree (sdrop s 2)).bind tC).map .point
+  else if s.startsWith "L:" then ((parseTree (sdrop s 2)).bind (tL tC)).map .path
+  else if s.startsWith "A:" then (parseFlagged (sdrop s 2)).map .area
+  else none
+
+def obsOfModel : ObsGeom Int → Obs
+  | .point c => .point c
+  | .path cs => .path cs
+  | .area ps => .area (flagged ps)
+  | .invalid => .invalid
+
+def renderTagVal : TagVal Int → String
+  | .str s => "s:" ++ s
+  | .point c => "P:" ++ (cT c).render
+  | .points cs => "L:" ++ (lT cT cs).render
+
+def kindName : FType → String
+  | .point => "point"
+  | .path => "path"
+  | .area => "area"
+
+def sortStrings (l : List String) : List String := (l.toArray.qsort (· < ·)).toList
+
+structure Found where
+  kind : String
+  obs : Obs
+  tags : List String          -- `k=<tagval>` in stored order
+
+def Found.render (f : Found) : String :=
+  s!"{f.kind} {f.obs.canon.render} {renderList (sortStrings f.tags)}"
+
+def parseFound (s : String) : Option Found :=
+  match words s with
+  | kind :: obs :: rest => do
+    let o ← parseObs obs
+    let tags ← parseBracket (" ".intercalate rest)
+    some { kind := kind, obs := o, tags := tags }
+  | _ => none
+
+def parseAnswer (s : String) : Option (List Found) :=
+  if s == "none" then some [] else (s.splitOn " + ").mapM parseFound
+
+def foundOfModel (x : Imported Int) : Found :=
+  { kind := kindName x.ftype, obs := obsOfModel (observe x),
+    tags := x.tags.map fun t => t.1 ++ "=" ++ renderTagVal t.2 }
+
+def renderAnswer (fs : List Found) : String :=
+  if fs.isEmpty then "none" else " + ".intercalate (fs.map Found.render)
+
+structure St where
+  coll : List (Feature Int) := []
+  world : List (Imported Int) := []
+  applyOk : Bool := true
+
+/-- the property predicate for feature `i`, on what the implementation reports -/
+def faithful (f : Feature Int) (found : List Found) : Bool :=
+  match expectedGeom f.geom, found with
+  | some (t, g), [x] =>
+    x.kind == kindName t
+    && x.obs.canon.render == (obsOfModel g).canon.render
+    && f.props.all fun kv =>
+        (x.tags.find? fun tg => tg.startsWith (kv.1 ++ "=")) == some (kv.1 ++ "=s:" ++ kv.2)
+  | _, _ => false
+
+def step (st : St) (op impl : String) : St × Verdict :=
+  match words op with
+  | ["geom", gs] =>
+    match parseGeom gs with
+    | none => (st, .bad)
+    | some g =>
+      let j := marshalGeometry g
+      let back := renderOpt (unmarshalGeometry j)
+      let back2 := renderOpt ((unmarshalDoc (.geometry j)).bind fun | .geometry g' => some g' | _ => none)
+      let model := s!"{renderJ j} {back} {back2}"
+      let v := match words impl with
+        | [_, b1, b2] =>
+          if b1 != gs || b2 != gs then Verdict.propfail "roundtrip"
+          else if impl == model then .ok else .diff model
+        | _ => if impl == model then .ok else .propfail "roundtrip"
+      (st, v)
+  | ["parse", js] =>
+    match parseJ js with
+    | none => (st, .bad)
+    | some j =>
+      let a := renderOpt (unmarshalGeometry j)
+      let b := renderOpt ((unmarshalDoc (.geometry j)).bind fun | .geometry g' => some g' | _ => none)
+      let model := s!"{a} {b}"
+      (st, if impl == model then .ok else .diff model)
+  | "coll" :: fsT =>
+    match fsT.mapM parseFeature with
+    | none => (st, .bad)
+    | some fs =>
+      let model := match unmarshalDoc (marshalDoc (.collection fs)) with
+        | some (.collection fs') => " ".intercalate ("coll" :: fs'.map renderFeature)
+        | _ => "err"
+      (st, if impl != op then .propfail "roundtrip" else if impl == model then .ok else .diff model)
+  | "import" :: fsT =>
+    match fsT.mapM parseFeature with
+    | none => (st, .bad)
+    | some fs =>
+      let (model, world, aok) := match fillFromGeoJSON (.collection fs) with
+        | none => ("filled=panic apply=- world=0", [], true)
+        | some added =>
+          let r := applyAll added
+          (s!"filled={added.length} apply={if r.2 then "ok" else "err"} world={r.1.length}", r.1, r.2)
+      ({ coll := fs, world := world, applyOk := aok }, if impl == model then .ok else .diff model)
+  | ["feat", is] =>
+    match is.toNat? with
+    | none => (st, .bad)
+    | some i =>
+      match st.coll[i]? with
+      | none => (st, .bad)
+      | some f =>
+        let modelFound := [FType.point, .path, .area].filterMap fun t => (findByID st.world t i).map foundOfModel
+        let model := renderAnswer modelFound
+        match parseAnswer impl with
+        | none => (st, .bad)
+        | some found =>
+          let implCanon := renderAnswer found
+          let applicable := st.coll.all fun g => wellShaped g.geom
+          if applicable && !faithful f found then
+            let cls :=
+              if !importable f.geom then " class=multi-geometry-dropped"
+              else if reservedClash f || (!st.applyOk && modelFound.isEmpty && st.coll.any reservedClash) then
+                -- the feature itself clashes, or the model's Apply stopped at an earlier clashing feature
+                " class=reserved-property-key"
+              else ""
+            (st, .propfail ("import_one_per_feature" ++ cls))
+          else (st, if implCanon == model then .ok else .diff model)
+  | _ => (st, .bad)
+
+def family : Family := { σ := St, init := {}, step := step }
+
+end B6.Driver.C32
+
+def main : IO Unit := B6.Driver.run B6.Driver.C32.family
